@@ -5,6 +5,7 @@ from ..index import AnalysisError, dotted
 from ..astutil import text, short, endswith, calls_in, walk_no_nested
 from .. import jsonshape
 from ..dataflow import DefUse
+from ._h_F import Res, res_of, call_arg, absent
 
 EXPLANATION = (
   "Decides the chain shape of the migrations registry (versions unique, within 1..SCHEMA_VERSION, "
@@ -52,6 +53,14 @@ def check(run, repo, tier):
   r2_shapes(run, w, migs)
 
 
+def _is_apply(r, n, e, p):
+  """e (already resolved at node n) is <data set>.apply_doc_actions(...), or a concatenation of
+  such results."""
+  if isinstance(e, ast.BinOp) and isinstance(e.op, ast.Add):
+    return _is_apply(r, n, e.left, p) and _is_apply(r, n, e.right, p)
+  return isinstance(e, ast.Call) and dotted(e.func) == p + ".apply_doc_actions"
+
+
 def r1_chain(run, w, migs):
   R1 = run.rule("C25-R1", "migration registry chain shape; every migration returns "
                 "tdset.apply_doc_actions(...); schemaVersion is updated last", floor=40)
@@ -64,67 +73,126 @@ def r1_chain(run, w, migs):
          min(vers) >= 1 and max(vers) == sv, nontrivial=False)
   for v, fi in sorted(migs, key=lambda x: x[0] or 0):
     p = fi.params()[0]
-    rets = [n for s in fi.node.body if not isinstance(s, (ast.FunctionDef, ast.ClassDef))
-            for n in walk_no_nested(s) if isinstance(n, ast.Return)]
-    ok = bool(rets) and all(isinstance(r.value, ast.Call) and
-                            dotted(r.value.func) == p + ".apply_doc_actions" for r in rets)
-    # no path falls off the end without returning
     fn = w.fn_of(fi)
-    cfg = fn.cfg
-    retn = {n.id for n in cfg.nodes if n.kind == "return"}
-    ok = ok and cfg.dominated_by(cfg.exit.id, retn)
+    r = res_of(w, fn)
+    rets = r.returns()
+    ok = bool(rets) and not r.bare_returns() and \
+        all(_is_apply(r, n, leaf, p) for (n, val) in rets for (f, leaf) in Res.cases(val))
+    # no path falls off the end without returning
+    ok = ok and not r.falls_off_end()
     run.ob(R1, fi.qualname, "return %s.apply_doc_actions(...)" % p,
            "the actions a migration reports are exactly those it applied to the data set", ok,
            fi=fi)
   tds = w.fn("table_data_set.TableDataSet.apply_doc_actions")
-  rets = [n for n in ast.walk(tds.node) if isinstance(n, ast.Return)]
-  ok = len(rets) == 1 and text(rets[0].value) == tds.fi.params()[1]
+  tr = res_of(w, tds)
+  rets = tr.returns()
+  ok = bool(rets) and all(text(val) == tds.fi.params()[1] for (n, val) in rets) and \
+      not tr.falls_off_end() and not tr.bare_returns() and \
+      not tr.defs.get(tds.fi.params()[1])
   run.ob(R1, tds.qualname, "return doc_actions", "apply_doc_actions returns the list it applied",
          ok, fi=tds.fi)
+  # ---- create_migrations: roles are read off the value that is returned
   cm = w.fn("migrations.create_migrations")
-  cfg = cm.cfg
-  # the version loop covers doc_version+1 .. SCHEMA_VERSION
-  loops = [s for s in cm.node.body if isinstance(s, ast.For) and isinstance(s.iter, ast.Call) and
-           dotted(s.iter.func) == "range"]
-  ok = len(loops) == 1 and len(loops[0].iter.args) == 2 and \
-      text(loops[0].iter.args[0]).replace(" ", "") == "doc_version+1" and \
-      text(loops[0].iter.args[1]).replace(" ", "") == "schema.SCHEMA_VERSION+1"
+  r = res_of(w, cm)
+  cfg = r.cfg
+  rets = r.returns()
+  # the collecting list: the local that receives the registered migrations' results
+  acc = set()
+  for (n, c, nm) in cm.calls():
+    if isinstance(c.func, ast.Attribute) and c.func.attr in ("extend", "append") and \
+        isinstance(c.func.value, ast.Name) and \
+        any(endswith(r.dotted(x, n.id), "all_migrations.get") for a in c.args
+            for x in ast.walk(r.expand(a, n.id)) if isinstance(x, ast.Call)):
+      acc.add(c.func.value.id)
+  if len(acc) != 1:
+    absent(w, cm, "the list collecting the registered migrations' actions")
+    raise AnalysisError("create_migrations: the list collecting the migrations' actions was "
+                        "not identified")
+  L = acc.pop()
+  returned_ok = bool(rets) and all(isinstance(val, ast.Name) and val.id == L for (n, val) in rets) \
+      and not r.falls_off_end() and not r.bare_returns()
+  els = []
+  for at in ([n.id for (n, val) in rets] or [cfg.exit.id]):
+    got = r.elements(ast.Name(id=L, ctx=ast.Load()), at)
+    if got is None:
+      raise AnalysisError("create_migrations: how the returned list %s is built is not "
+                          "understood" % L)
+    for g in got:
+      if not any(g.site is x.site for x in els):
+        els.append(g)
+  param = cm.fi.params()[0]
+  def doc_version(e):
+    """e is the document's version: a local bound only to all_tables['_grist_DocInfo']
+    ...schemaVersion... or to the fallback 0."""
+    if not isinstance(e, ast.Name):
+      return False
+    vals = [r._plain_value(cfg.nodes[d], e.id) for d in r.defs.get(e.id, ())]
+    if not vals or any(v is None for v in vals):
+      return False
+    reads = 0
+    for v in vals:
+      if isinstance(v, ast.Constant) and v.value == 0:
+        continue
+      t = r.norm(v)
+      if t.startswith(param + "['_grist_DocInfo']") and "'schemaVersion'" in t:
+        reads += 1
+      else:
+        return False
+    return reads >= 1
+  def plus_one(e, pred):
+    return isinstance(e, ast.BinOp) and isinstance(e.op, ast.Add) and \
+        ((isinstance(e.right, ast.Constant) and e.right.value == 1 and pred(e.left)) or
+         (isinstance(e.left, ast.Constant) and e.left.value == 1 and pred(e.right)))
+  runs = [el for el in els if el.loops]
+  ok = len(runs) >= 1
+  for el in runs:
+    tg, it = el.loops[-1]
+    it = r.expand(it, el.node.id)
+    a0, a1 = (call_arg(it, 0, None), call_arg(it, 1, None)) if isinstance(it, ast.Call) else \
+        (None, None)
+    ok = ok and len(el.loops) == 1 and isinstance(it, ast.Call) and \
+        dotted(it.func) == "range" and len(it.args) == 2 and not it.keywords and \
+        plus_one(a0, doc_version) and \
+        plus_one(a1, lambda x: endswith(dotted(x), "schema.SCHEMA_VERSION", "SCHEMA_VERSION"))
   run.ob(R1, cm.qualname, "for version in range(doc_version + 1, schema.SCHEMA_VERSION + 1)",
          "every version above the document's, up to the current one, is migrated in order", ok,
          fi=cm.fi)
   if ok:
-    lp = loops[0]
-    ver = text(lp.target)
-    du = DefUse(cm)
-    def registered(e):
-      return isinstance(e, ast.Call) and endswith(dotted(e.func), "all_migrations.get") and \
-          e.args and text(e.args[0]) == ver
-    ok2 = any(endswith(cm.name(c) or "", "migration_actions.extend") and c.args and
-              isinstance(c.args[0], ast.Call) and du.denotes(c.args[0].func, registered)
-              for c in calls_in(lp.body))
+    ok2 = True
+    for el in runs:
+      tg = el.loops[-1][0]
+      e = r.expand(el.elt, el.node.id)
+      # <registry>.get(<version>[, noop])(<data set>)
+      f = e.func if isinstance(e, ast.Call) else None
+      ok2 = ok2 and el.how == "extend" and isinstance(f, ast.Call) and \
+          endswith(dotted(f.func), "all_migrations.get") and bool(f.args) and \
+          isinstance(tg, ast.Name) and text(f.args[0]) == tg.id and len(e.args) == 1
     run.ob(R1, cm.qualname, "migration_actions.extend(all_migrations.get(version, noop)(tdset))",
            "each version's registered migration runs on the shared data set and its actions are "
            "collected", ok2, fi=cm.fi)
   # schemaVersion update appended after the loop, before return, value SCHEMA_VERSION
-  apps = [(n, c) for (n, c, nm) in cm.calls() if endswith(nm, "migration_actions.append")]
-  ok = False
-  for (n, c) in apps:
-    a = c.args[0]
+  stamps = []
+  for el in els:
+    a = r.expand(el.elt, el.node.id) if el.node is not None else el.elt
     if isinstance(a, ast.Call) and endswith(dotted(a.func), "UpdateRecord") and \
-        text(a.args[0]) == "'_grist_DocInfo'" and "schemaVersion" in text(a.args[2]) and \
-        "schema.SCHEMA_VERSION" in text(a.args[2]):
-      loop_nodes = {x.id for x in cfg.nodes if x.stmt is not None and loops and x.stmt is loops[0]}
-      later = cfg.reach_after({n.id})
-      ok = cfg.dominated_by(cfg.exit.id, {n.id}) and not (later & loop_nodes) and \
-          not any(endswith(nm2, "migration_actions.append", "migration_actions.extend",
-                           "migration_actions.insert") and m.id in later
-                  for (m, c2, nm2) in cm.calls())
+        len(a.args) == 3 and text(a.args[0]) == "'_grist_DocInfo'" and \
+        isinstance(a.args[2], ast.Dict) and \
+        [(text(k), text(v)) for k, v in zip(a.args[2].keys, a.args[2].values)] == \
+        [("'schemaVersion'", "schema.SCHEMA_VERSION")]:
+      stamps.append(el)
+  ok = len(stamps) == 1
+  if ok:
+    st = stamps[0]
+    n = st.node
+    growth = r.du.muts.get(L, set()) | r.defs.get(L, set())
+    later = cfg.reach_after({n.id})
+    ok = st.how == "append" and not st.loops and cfg.dominated_by(cfg.exit.id, {n.id}) and \
+        n.id not in later and not (later & growth)
   run.ob(R1, cm.qualname, "migration_actions.append(UpdateRecord('_grist_DocInfo', 1, "
          "{'schemaVersion': SCHEMA_VERSION})) last",
          "the version stamp is the final action on every path", ok, fi=cm.fi)
-  rets = [n for n in ast.walk(cm.node) if isinstance(n, ast.Return)]
   run.ob(R1, cm.qualname, "return migration_actions", "the collected list is what is returned",
-         len(rets) == 1 and text(rets[0].value) == "migration_actions", fi=cm.fi)
+         returned_ok, fi=cm.fi)
 
 
 def r2_shapes(run, w, migs):
@@ -184,4 +252,11 @@ VARIANTS = [
    "  for version in range(doc_version + 1, schema.SCHEMA_VERSION):", "C25-R1"),
   ("schema-version-bumped-without-migration", "sandbox/grist/schema.py", "SCHEMA_VERSION = 46", "SCHEMA_VERSION = 47", "C25-R1"),
   ("duplicate-version", M, "@migration(schema_version=46)", "@migration(schema_version=45)", "C25-R1"),
+  ("returns-fresh-list", M, "  return migration_actions\n", "  return list(all_migrations)\n", "C25-R1"),
+  ("stamp-only-when-upgrading", M, """  migration_actions.append(actions.UpdateRecord('_grist_DocInfo', 1, {
+    'schemaVersion': schema.SCHEMA_VERSION
+  }))""", """  if migration_actions:
+    migration_actions.append(actions.UpdateRecord('_grist_DocInfo', 1, {
+      'schemaVersion': schema.SCHEMA_VERSION
+    }))""", "C25-R1"),
 ]
